@@ -1,6 +1,8 @@
 """helpers shared by the property modules"""
 import json, os, random
 import core
+import lang
+lang_clock = lang.CLOCK
 
 
 def sub_rng(seed, tag):
@@ -27,7 +29,7 @@ def diff_runs(env, cases, fuel=200000, seed=0, timeout_ms=5000, need_oracle=True
             mism.append({'case': c, 'reason': 'missing result (impl %s, model %s)' % (rs is not None, mf is not None)})
             continue
         for r in rs:
-            why = core.compare_run(mf, r)
+            why = core.compare_run(mf, r, mask_clock=lang_clock in (c['src'] if isinstance(c['src'], str) else ''))
             if why:
                 if len(mism) < keep:
                     mism.append({'case': c, 'reason': why, 'impl_status': r['status'],
